@@ -546,6 +546,9 @@ IP_HOSTS = ["1.2.3.4", "1.2.3.5", "01.2.3.4", "1.2.3.04", "1.2.3.4%eth0",
             "fe80::1", "fe80::1%eth0", "fe80::1%25eth0", "FE80::1%eth0",
             "[::1]", "[0:0:0:0:0:0:0:1]", "[fe80::1%eth0]", "[fe80::1%25eth0]", "[::2]", "[1.2.3.4]", "[::1", "::1]"]
 BRACKET_DNS_HOSTS = ["[a]", "[b.a]", "[a.b]"]
+# DNS hosts with a '%' in them (what parse_url hands over for "http://b.a%25x/"): a zone id belongs to IP literals only,
+# nothing may be cut off a name before it is compared
+PCT_DNS_HOSTS = ["b.a%x", "b.a%25x", "b.a%25.b", "a%b.a"]
 
 
 def pool_for(host, dns_pool):
@@ -828,6 +831,9 @@ def run(ctx):
         tasks.append(("lists", h, "_match_hostname", 3))
     for h in BRACKET_DNS_HOSTS + ["B.A", "XN--A.a"]:
         tasks.append(("lists", h, "match_hostname", 3))
+    for h in PCT_DNS_HOSTS:
+        for api in API:
+            tasks.append(("lists", h, api, 2))
     for h in IP_HOSTS:
         for api in API:
             tasks.append(("lists", h, api, 3))
